@@ -24,6 +24,7 @@ def run(ctx):
     chk, fb = ctx.check, ctx.fb
     chk.rule("R03.1", "operator listings: returned vector is sort(natural) -> dedup -> return, no other mutation after the sort")
     chk.rule("R03.2", "from_deepex / to_deepex copy the variable list verbatim")
+    chk.rule("R03.4", "flat -> deep restores each operator's ORIGINAL priority from the operator table (flat priorities are depth-scaled)")
     chk.rule("R03.3", "deep -> flat nesting step is a constant >= 100")
     fns = fb.find_bodies(lambda b: b["kind"] == "AssocFn" and b.get("name") in LISTINGS and (b.get("impl_trait_path") or "").endswith("expression::Express"))
     n = 0
@@ -145,6 +146,35 @@ def run(ctx):
             chk.ok("R03.2", "converter installs exactly the passed list on the returned expression", "", loc(c["span"]))
         else:
             chk.violation("R03.2", "converter", "flatex_to_deepex does not install the passed variable list on the expression it returns", loc(c["span"]))
+
+    # ---- R03.4 original priorities
+    if len(conv) == 1:
+        c = conv[0]
+        corg = dom.Origins(c)
+        nb = 0
+        for bi, si, st in mir.iter_stmts(c, mir.normal_blocks(c)):
+            if st["k"] == "assign" and st["rv"]["k"] == "aggregate" and (st["rv"].get("adt") or "").endswith("operators::BinOp") and "prio" in st["rv"]["fields"]:
+                nb += 1
+                term = corg.expand(corg.op_term(st["rv"]["ops"][st["rv"]["fields"].index("prio")]))
+                flatp = None
+                for i in range(1, c["arg_count"] + 1):
+                    if "FlatOp<" in c["locals"][i]["ty"]:
+                        flatp = "param:%s" % corg.name(i)
+                from_table = "expression::flat::detail::collect_reprs(" in term or "operators::MakeOperators::make()" in term
+                # the mapping closure must read the table entry's own priority
+                reads_prio = False
+                for cp in fb.closures_of(c["path"]):
+                    if cp.split("::")[-1] + "{" in term or cp in term:
+                        cb = fb.bodies[cp]
+                        if any((mir.callee_path(tt) or "").endswith("Operator::<'a, T>::bin") for _, tt in mir.calls(cb)):
+                            reads_prio = True
+                if from_table and reads_prio:
+                    chk.ok("R03.4", "priority restored from the operator table", term[:100], loc(st["span"]))
+                elif flatp and flatp in term:
+                    chk.violation("R03.4", "prio-from-flat", "the deep expression's operator priority is derived from the flat (depth-scaled) priority instead of the operator table: %s" % term[:160], loc(st["span"]))
+                else:
+                    chk.unrecognised("R03.4", "prio-origin", "origin of the restored priority not recognised: %s" % term[:160], loc(st["span"]))
+        chk.floor("R03.4", "rebuilt operators", nb, 1)
 
     # ---- R03.3
     fv = fb.find_bodies(lambda b: b["kind"] == "Fn" and b["path"].endswith("flat::flatten_vecs"))
